@@ -41,6 +41,24 @@ class ValHandle(Handle):
         return '<H %s>' % self.label
 
 
+FLAVOURS = ('falsy', 'empty', 'equal')
+_flavoured = {}
+
+
+def flavoured(base, flavour):
+    """subclass of `base` whose INSTANCES have unusual truthiness / equality (identity is what counts):
+    falsy: __bool__ False; empty: __len__ 0; equal: == everything, constant hash"""
+    if flavour == 'plain':
+        return base
+    if (base, flavour) not in _flavoured:
+        ns = {'falsy': {'__bool__': lambda self: False},
+              'empty': {'__len__': lambda self: 0},
+              'equal': {'__eq__': lambda self, other: True, '__ne__': lambda self, other: False,
+                        '__hash__': lambda self: 7}}[flavour]
+        _flavoured[(base, flavour)] = type(flavour.capitalize() + base.__name__, (base,), dict(ns))
+    return _flavoured[(base, flavour)]
+
+
 class Node:
     def __init__(self, real):
         self.real = real
@@ -48,21 +66,25 @@ class Node:
 
 
 class Ctx:
-    def __init__(self, rot):
+    def __init__(self, rot, flavour='plain'):
         self.n = 0
         self.rot = rot
+        self.flavour = flavour
+
+    def map(self):
+        return flavoured(ResourceMap, self.flavour)()
 
     def handle(self):
         i = self.n
         self.n += 1
         k = (i + self.rot) % 3
         value = (('token', i, object()), None, 0)[k]
-        return ValHandle('h%d=%s' % (i, ('token', 'None', '0')[k]), value)
+        return flavoured(ValHandle, self.flavour)('h%d=%s' % (i, ('token', 'None', '0')[k]), value)
 
 
 def build(sp, cx, levels, depth, label):
     """a fresh map populated from solver choices; returns its model Node"""
-    real = ResourceMap()
+    real = cx.map()
     node = Node(real)
     names, nmax = levels[depth]
     nk = 3 if depth + 1 < len(levels) else 2        # handle, layered handle, (sub-map)
@@ -93,7 +115,7 @@ def build(sp, cx, levels, depth, label):
                 spine_done = True
                 sub = build(sp, cx, levels, depth + 1, '%s/%s' % (label, k))
             else:
-                sub = Node(ResourceMap())
+                sub = Node(cx.map())
                 h = cx.handle()
                 sub.real['a'] = h
                 sub.kids['a'] = h
@@ -224,10 +246,14 @@ def node_at(model, path):
     return model
 
 
-def h_static(sp, levels=((NAMES, 2), (SUB4, 2), (SUB2, 1)), rots=1, mutate=False):
+def h_static(sp, levels=((NAMES, 2), (SUB4, 2), (SUB2, 1)), rots=1, mutate=False, flavours=('plain',)):
     levels = [(list(a), b) for a, b in levels]
     rot = sp.choose(rots, 'value-rotation')
-    cx = Ctx(rot)
+    flavour = sp.pick(list(flavours), 'flavour')       # instance flavour of every handle and map object
+    cx = Ctx(rot, flavour)
+    if flavour != 'plain':
+        sp.note('all handles and maps are %s instances' % flavour)
+        sp.cover('flavour-' + flavour)
     model = build(sp, cx, levels, 0, 'm')
     m = model.real
     absent_names = list(NAMES) + sorted({n for names, _ in levels for n in names} - set(NAMES))
@@ -299,6 +325,7 @@ _MUT_TAGS = ['nested-mutation-resnapshot', 'deep-nested-mutation-resnapshot', 'r
              'resnapshot-after-composite-key', 'resnapshot-after-direct-edit', 'resnapshot-after-clear',
              'resnapshot-after-clear-nonempty', 'resnapshot-after-add', 'resnapshot-after-replace']
 _MUT_REQ = _TAGS + _MUT_TAGS
+_FLAV_REQ = _TAGS + ['flavour-falsy', 'flavour-empty', 'flavour-equal']
 _MANGLE_REQ = ['layered', 'mangling-style', 'mangling-style-all-identifiers', 'mangled-with-one-trailing-underscore',
                'only-underscores', 'dunder-style', 'attr-access', 'handle-compared', 'deep-handle-compared',
                'falsy-resource', 'submap-compared', 'attacked', 'attacked-submap']
@@ -308,7 +335,8 @@ TIERS = {
               # mangling shapes: every sibling is an identifier, so no __dict__ rescues a wrongly declared slot
               ('static', dict(levels=[[MANGLE, 2], [MANGLE6, 1]], rots=1), {'required': _MANGLE_REQ}),
               ('static', dict(levels=[[['a', 'b c'], 2], [SUB3B, 2], [SUB2, 1]], rots=1, mutate=True),
-               {'required': _MUT_REQ})],
+               {'required': _MUT_REQ}),
+              ('static', dict(levels=[[NAMES, 2], [SUB2, 1]], rots=1, flavours=FLAVOURS), {'required': _FLAV_REQ})],
     'thorough': [('static', dict(levels=[[NAMES, 3], [SUB3B, 2], [SUB2, 1]], rots=1)),
                  ('static', dict(levels=[[SUB5, 2], [SUB5, 2], [SUB3, 1]], rots=1)),
                  ('static', dict(levels=[[NAMES, 2], [SUB3B, 2], [SUB2, 1]], rots=3)),
@@ -318,7 +346,11 @@ TIERS = {
                  ('static', dict(levels=[[SUB3B, 2], [SUB3B, 2], [SUB2, 1]], rots=1, mutate=True),
                   {'required': _MUT_REQ}),
                  ('static', dict(levels=[[NAMES, 2], [SUB2, 1], [['a'], 1]], rots=1, mutate=True),
-                  {'required': _MUT_REQ})],
+                  {'required': _MUT_REQ}),
+                 ('static', dict(levels=[[NAMES, 2], [SUB3B, 2], [SUB2, 1]], rots=1, flavours=FLAVOURS),
+                  {'required': _FLAV_REQ}),
+                 ('static', dict(levels=[[SUB3B, 2], [SUB2, 1]], rots=1, flavours=FLAVOURS, mutate=True),
+                  {'required': _FLAV_REQ + ['nested-mutation-resnapshot', 'root-mutation-resnapshot']})],
 }
 BUDGET_S = {'quick': 300, 'thorough': 1500}
 
@@ -348,6 +380,8 @@ BOUNDS = {
                 "of the 10 names with spine <=1 of a,__x and third level <=1 of a, x every mutation",
 }
 ASSUMPTIONS = [
+    'flavour entries: every handle and map object is an instance of a subclass that is falsy, empty (__len__ 0) or '
+    'equal to everything; the oracle is unchanged and only compares identities',
     'names colliding with members of the snapshot (get, _handle_names, attributes of object such as __class__, '
     '__dict__, __slots__, __init__) are excluded by the property and never generated; __x__, __, ___ are not '
     'members of object and are used',
